@@ -19,7 +19,7 @@ CHECKS = {
    design="§3 C29"),
  "C30": dict(ready=True, level="exploration", engine="vsim-static",
    technique="deterministic simulation: seeded scheduler + simulated process table/pipes/SIGCHLD delivery/pid recycling/allocator lock under the real ProcessManager/SignalManager (link-time --wrap, objcopy-redirected operator new/delete), verdict oracle per command, ASan/UBSan, zero/pattern auto-var-init builds",
-   text="Seeded exploration of the relative order of child exit, SIGCHLD delivery (any eligible thread), handler execution and waitpid for 1..4 (quick) / 1..16 (thorough) concurrent managers running commands that exit 0, exit k, die by a signal or fail to exec; execute()'s outcome is compared to the planned fate for every command, plus reaping/descriptor conservation, deadlock (mutexes and the allocator lock re-entered by a signal handler) and memory-error detection; pids are recycled across the commands of a history in a third of the runs. One genuine defect is recorded, not repaired (known_findings.json: the SIGCHLD handler allocates memory).",
+   text="Seeded exploration of the relative order of child exit, SIGCHLD delivery (any eligible thread), handler execution and waitpid for 1..4 (quick) / 1..16 (thorough) concurrent managers running commands that exit 0, exit k, die by a signal or fail to exec; execute()'s outcome is compared to the planned fate for every command, plus reaping/descriptor conservation, deadlock (mutexes and the allocator lock re-entered by a signal handler) and memory-error detection; pids are recycled across the commands of a history in a third of the runs; children can be stopped and continued (job control); the child side of an exec failure is executed for real in a forked copy of the harness. One genuine defect is recorded, not repaired (known_findings.json: the SIGCHLD handler allocates memory).",
    note="Trusted: the simulated kernel (fork/waitpid/pipe/signal semantics modelled on Linux); the child side of createProcess is a state machine, not executed code. Uninitialised automatic variables are made deterministic with -ftrivial-auto-var-init in two adversarial flavours.",
    design="§3 C30"),
  "C52": dict(ready=True, level="exploration", engine="vsim-static",
@@ -28,18 +28,18 @@ CHECKS = {
    note="Trusted: simulated kernel as for C30; child commands are simulated fates, not real programs.",
    design="§3 C52"),
  "C46": dict(ready=True, level="exploration", engine="procsim",
-   technique="deterministic simulation of processes: real forked processes running MFrontLock.cxx from the tree (lock driver and the real mfront binary), every sem_* call and exit forwarded to a seeded simulator that owns the named semaphore objects, the clock of timed waits and the schedule; faults: kill at any request, EINTR on a blocked wait; holder-count invariant",
+   technique="deterministic simulation of processes: real forked processes running MFrontLock.cxx from the tree (lock driver and the real mfront binary), every sem_* call and exit forwarded to a seeded simulator that owns the named semaphore objects, the clock of timed waits and the schedule; faults: kill at any request, EINTR or SIGTERM on a blocked wait, failing sem_open, failing invocations; holder-count invariant and every access of the real mfront to src/targets.lst checked against the lock",
    text="Seeded exploration of histories of 2..8 mfront-like runs (sequential then concurrent, with kills at arbitrary points): at every step the number of processes inside a lock-protected section must be <= the initial value of the semaphore (1).",
    note="Trusted: the simulated named semaphore (POSIX semantics, persistent across process exits) and the forwarding shim.",
    design="§3 C46"),
  "C36": dict(ready=True, level="exploration", engine="preload",
    technique="deterministic simulation of the environment: real mfront under an LD_PRELOAD simulator (seeded clock with jumps, pid, readdir order, heap layout, environ order) across run histories; byte-identity oracle",
-   text="For sampled (input, interface) pairs the generated files must be byte-identical across seeded perturbations of every nondeterminism source mfront can observe and across run histories (fresh, repeated, after other inputs, after the same input with another interface, last of three inputs of one mfront invocation).",
+   text="For sampled (input, interface) pairs the generated files must be byte-identical across seeded perturbations of every nondeterminism source mfront can observe and across run histories (fresh, repeated, after other inputs, after the same input with another interface, last of three inputs of one mfront invocation, after an input of a directory holding a name clash, with a keyword option on the command line, under seeded values of the ambient environment variables); a repeated generation must leave the whole directory unchanged.",
    note="Trusted: the list of intercepted sources is complete for what mfront reads (checked with strace/ltrace during design).",
    design="§3 C36"),
  "C47": dict(ready=True, level="fault_enumeration", engine="preload",
    technique="crash-point enumeration: real mfront under an LD_PRELOAD I/O layer, kill/ENOSPC injected at every I/O event of a chosen run inside seeded histories; union-model and crash-recovery oracle on src/targets.lst",
-   text="Fault-free histories are compared with a set-union reference model and write/read idempotence; for a crashing run every I/O event index x {kill before, kill after, torn write} is enumerated, and the following successful run must either report the damaged registry or keep every library registered before the crash. Corpus: material properties (c, cxx, octave, excel), behaviours (one with @MaterialLaw dependencies) and models; libraries, headers and specific targets are part of the union model.",
+   text="Fault-free histories are compared with a set-union reference model and write/read idempotence; for a crashing run every I/O event index x {kill before, kill after, torn write} is enumerated, and the following successful run must either report the damaged registry or keep every library registered before the crash. Corpus: material properties (c, cxx, octave, excel), behaviours (one with @MaterialLaw dependencies) and models; libraries, headers and specific targets are part of the union model; runs without interface and runs with a rejected second input; an in-memory tier checks write/read identity and merge inclusion on seeded descriptions.",
    note="Kill model (process death), not power loss: data for which write() returned is durable. Trusted: the small registry parser in the driver.",
    design="§3 C47"),
  "C40": dict(ready=True, level="fault_enumeration", engine="callback-fault",
@@ -48,13 +48,13 @@ CHECKS = {
    note="Trusted: the mock implements the interface the templates require; generated-tier behaviours are produced by the freshly built mfront.",
    design="§3 C40"),
  "C50": dict(ready=True, level="fault_enumeration", engine="preload",
-   technique="fault injection at the behaviour seam of the real mtest binary (plan keyed by behaviour-call index), refinement oracle against a direct fault-free run over the accepted steps",
-   text="Failures, exceptions and time-step reductions are injected at chosen behaviour calls (incl. nested); the result file must agree, at every accepted time, with a fault-free run performed directly with the accepted steps, and the attempts logged by mtest must follow a reference model of the sub-stepping loop (time bookkeeping, per-interval rejection budget).",
+   technique="fault injection at the behaviour seam of the real mtest binary (plan keyed by behaviour-call index) on .mtest and .ptest inputs, refinement oracle against a direct fault-free run over the accepted steps, reference model of the sub-stepping loop",
+   text="Failures, exceptions and time-step reductions are injected at chosen behaviour calls (incl. nested); the result file must agree, at every accepted time, with a fault-free run performed directly with the accepted steps, and the attempts logged by mtest must follow a reference model of the sub-stepping loop (time bookkeeping, per-interval rejection budget). A sixth of the plans drive PipeTest (several integration points, mandrel, a failure criterion with the StopComputation policy registered by a preloaded plugin).",
    note="Comparison within 100x the convergence criteria in general, bitwise on dyadic time grids (strict mode).",
    design="§3 C50"),
  "C08": dict(ready=True, level="fault_enumeration", engine="callback-fault",
    technique="fault enumeration at the residual-callback seam of the real solver templates (failure/NaN/inf at chosen evaluations), invariant over the recorded evaluation history, UBSan",
-   text="All subsets of <=3 faulty evaluations among the first iterMax+2 are enumerated per solver, size and system family; success must imply a fault-free, finite, criterion-meeting last evaluation at the returned unknowns; iter <= iterMax always; after the last fault affine systems (at four magnitudes) converge.",
+   text="All subsets of <=3 faulty evaluations among the first iterMax+2 are enumerated per solver, size and system family; success must imply a fault-free, finite, criterion-meeting last evaluation at the returned unknowns; iter <= iterMax always (also for a second resolution on the same object, and on Rosenbrock's valley for every budget 1..60); after the last fault affine systems (four magnitudes, equations in every order) converge.",
    note="Only the fault clauses of C08 are decided; 'Newton converges inside its basin' is covered only as bounded liveness after faults stop on affine systems.",
    design="§3 C08"),
  "C09": dict(ready=True, level="fault_enumeration", engine="callback-fault",
